@@ -130,7 +130,9 @@ static std::string make_text(int th, int seq, size_t len) {
     std::string s(tag); if (s.size() < len) s.append(len - s.size(), 'x'); else s.resize(len);
     return s;
 }
-struct CallSpec { int lvl, mod, fn, file, line; size_t len; bool args; };
+static char g_dynmod[1400] = "modA";
+static int g_dyn_idx = 0;
+struct CallSpec { int lvl, mod, fn, file, line; size_t len; bool args; bool dyn = false; };
 static void logger(int th, std::vector<CallSpec> calls, int seq0) {
     { std::lock_guard<std::mutex> g(g_tidm); g_th_of_tid[syscall(SYS_gettid)] = th; }
     tl_th = th;
@@ -140,8 +142,12 @@ static void logger(int th, std::vector<CallSpec> calls, int seq0) {
         std::string text = make_text(th, seq, c.len);
         emit(J("call") + kv("th", th) + kv("seq", seq) + kv("lvl", c.lvl) + ks("mod", MODS[c.mod]) + ks("func", FUNCS[c.fn]) + ks("file", BASES[c.file]) +
              kv("line", c.line) + kv("len", (long long)c.len) + kb("args", c.args) + kv("t0", rel_us()) + "}");
-        if (c.args) LogPrintfFunc(MODS[c.mod], FUNCS[c.fn], FILES[c.file], c.line, c.lvl, 1, "%s", text.c_str());
-        else LogPrintfFunc(MODS[c.mod], FUNCS[c.fn], FILES[c.file], c.line, c.lvl, 0, text.c_str());
+        // some calls pass the module name through one global buffer whose content changes between phases (only while no asynchronous sink
+        // is enabled: those keep the pointer until their back end has formatted the record): different module names at the same address
+        // over time, which must not matter to any filter
+        const char *mod = c.dyn ? g_dynmod : MODS[c.mod];
+        if (c.args) LogPrintfFunc(mod, FUNCS[c.fn], FILES[c.file], c.line, c.lvl, 1, "%s", text.c_str());
+        else LogPrintfFunc(mod, FUNCS[c.fn], FILES[c.file], c.line, c.lvl, 0, text.c_str());
         emit(J("ret") + kv("th", th) + kv("t1", rel_us()) + "}");
         call_start() = now_ms();          // progress: the watchdog on the join below fires when no log call has returned for its whole interval
     }
@@ -218,6 +224,7 @@ static void run_execution(vh::Rng &rng, uint64_t seed, int xno) {
     for (int ph = 0; ph < nphase; ++ph) {
         // thresholds and maximum length
         // (100 KiB texts through a pipe of 1..64-byte buffers only cost time: one buffer hand-over per few bytes)
+        if (!en[2] && !en[3]) { g_dyn_idx = (int)rng.below(3); strcpy(g_dynmod, MODS[g_dyn_idx]); }     // the name behind the shared address changes
         size_t mx = (size_t)rng.pick(pc.buff_size <= 64 ? std::vector<long long>{5, 20, 100, 2047, 2048, 2049, 5000} : std::vector<long long>{5, 20, 100, 2047, 2048, 2049, 5000, 102400, 102401, 150000});
         LogSetMaxLength(mx);
         std::string cfg = J("config") + kv("max", (long long)mx) + ",\"sinks\":[";
@@ -270,6 +277,7 @@ static void run_execution(vh::Rng &rng, uint64_t seed, int xno) {
                 }
                 if (c.len > 160000) c.len = 160000;
                 c.args = rng.chance(60);
+                if (rng.chance(30)) { c.dyn = true; c.mod = g_dyn_idx; }
                 calls.push_back(c);
             }
             th.emplace_back(logger, t, calls, seqs[t]); seqs[t] += n;
@@ -288,10 +296,27 @@ static void run_execution(vh::Rng &rng, uint64_t seed, int xno) {
         }
         {   CallGuard cg; for (auto &t : th) t.join(); }
         // the process forks: the child's (only) thread is a thread of its own, its records carry its own id
-        if (rng.chance(25)) {
+        if (rng.chance(35)) {
             for (int s = 2; s <= 3; ++s) if (en[s]) disable_sink(s);
             if (!en[1]) { sinks[1]->enable(); en[1] = true; emit(J("enabled") + kv("s", 1) + "}"); }
-            fork_and_log(rng, seqs[5], mx);
+            if (rng.chance(60)) fork_and_log(rng, seqs[5], mx);
+            // only the synchronous sink is enabled and nobody is logging: the name behind the shared address changes WITHOUT any threshold
+            // being set in between, and a short second batch logs through it (and through the literal names)
+            g_dyn_idx = (g_dyn_idx + 1 + (int)rng.below(2)) % 3; strcpy(g_dynmod, MODS[g_dyn_idx]);
+            std::vector<std::thread> th2;
+            int nth2 = (int)rng.range(1, 2);
+            for (int t = 1; t <= nth2; ++t) {
+                std::vector<CallSpec> calls;
+                int n = (int)rng.range(3, 10);
+                for (int i = 0; i < n; ++i) {
+                    CallSpec c; c.lvl = (int)rng.range(-1, 8); c.mod = (int)rng.below(3); c.fn = (int)rng.below(2); c.file = (int)rng.below(3); c.line = (int)rng.range(1, 9999);
+                    c.len = (size_t)rng.range(0, 40); c.args = rng.chance(50);
+                    if (rng.chance(70)) { c.dyn = true; c.mod = g_dyn_idx; }
+                    calls.push_back(c);
+                }
+                th2.emplace_back(logger, t, calls, seqs[t]); seqs[t] += n;
+            }
+            {   CallGuard cg; for (auto &t : th2) t.join(); }
         }
         // some sinks are disabled at the end of the phase: everything logged so far must be there when disable() returns
         for (int s = 1; s <= 3; ++s) if (en[s] && (ph == nphase - 1 || rng.chance(40))) disable_sink(s);
